@@ -518,12 +518,16 @@ class Arbiter:
         """\
         Kill unused/idle workers
         """
-        if not self.timeout:
-            return
         workers = list(self.WORKERS.items())
         for (pid, worker) in workers:
+            # a worker is held to the timeout it was started with (it got
+            # half of it as its notification interval): a reload must not
+            # shorten the time an old worker has to finish its request
+            timeout = worker.timeout * 2
+            if not timeout:
+                continue
             try:
-                if time.monotonic() - worker.tmp.last_update() <= self.timeout:
+                if time.monotonic() - worker.tmp.last_update() <= timeout:
                     continue
             except (OSError, ValueError):
                 continue
